@@ -27,7 +27,7 @@ EXHAUSTIVE = {"quick": "all arguments of each operation for every generated trac
 CASE_LIMIT_S = 60.0
 
 OPS = ["sort", "insert", "insert_chain", "extract", "span", "add", "mod_int", "mod_pattern", "gt", "lt",
-       "remove_list", "remove_one", "pop"]
+       "remove_list", "remove_one", "pop", "history", "history"]
 
 BASES = [gen.ms_from_fields(2021, 6, 15, 12, 0, 0, 0),
          gen.ms_from_fields(2019, 12, 31, 23, 59, 58, 0),     # year end
@@ -52,7 +52,7 @@ def chunks(tier, seed):
 
 def floors(tier):
     return {"monitors": {"getInsertionIndex.keeps_sorted": 1000, "model.ids": 5000, "source.unchanged": 5000},
-            "classes": {"op:" + o: 20 for o in OPS} | {"size:0": 5, "size:1": 10, "size:2": 10, "size:4": 10,
+            "classes": {"op:" + o: 20 for o in set(OPS)} | {"size:0": 5, "size:1": 10, "size:2": 10, "size:4": 10,
                                                         "pattern:duplicates": 50, "pattern:all_equal": 20,
                                                         "pattern:reversed": 20},
             "distinct_nontrivial": 100}
@@ -464,6 +464,108 @@ def run_case(case, ctx):
                 break
         if n == 0:
             return ood("no index to remove on an empty track", cls)
+    elif op == "history":
+        # call histories: list mutations of every kind interleaved with sort() and chronological insertion
+        tr = T()
+        model = [(i, times[i]) for i in range(n)]          # (id, ms) in track order
+        next_id = [n]
+        span = (max(times) - min(times) + 5000) if times else 5000
+        lo = (min(times) if times else BASES[0])
+
+        def new_obs():
+            k = next_id[0]
+            next_id[0] += 1
+            ms = max(0, lo + rng.randrange(-2000, span))
+            if model and rng.random() < 0.3:
+                ms = rng.choice(model)[1]                  # duplicate timestamp
+            o = Obs(ENUCoords(100.0 + k, -k * 1.0, k / 2.0), gen.obstime_from_ms(ms))
+            o.features = [float(k), 1000.0 + 7 * k] if n else []
+            tid[k] = ms
+            return k, ms, o
+
+        steps = []
+        for _ in range(rng.randrange(4, 13)):
+            kinds = ["add", "insert_at", "sort", "sort"]
+            if model:
+                kinds += ["setitem", "setitem", "setobs", "remove", "pop"]
+            if all(model[i][1] <= model[i + 1][1] for i in range(len(model) - 1)):
+                kinds += ["insert_chrono", "insert_chrono"]
+            kd = rng.choice(kinds)
+            steps.append(kd)
+            if kd == "add":
+                k, ms, o = new_obs()
+                r = M.call(tr.addObs, o)
+                model.append((k, ms))
+            elif kd == "insert_at":
+                k, ms, o = new_obs()
+                i = rng.randrange(0, len(model) + 1)
+                r = M.call(tr.insertObs, o, i)
+                model.insert(i, (k, ms))
+            elif kd in ("setitem", "setobs"):
+                k, ms, o = new_obs()
+                i = rng.randrange(len(model))
+                if kd == "setitem":
+                    def _set(i=i, o=o):
+                        tr[i] = o
+                    r = M.call(_set)
+                else:
+                    r = M.call(tr.setObs, i, o)
+                model[i] = (k, ms)
+            elif kd == "remove":
+                i = rng.randrange(len(model))
+                r = M.call(tr.removeObs, i)
+                del model[i]
+            elif kd == "pop":
+                i = rng.randrange(len(model))
+                r = M.call(tr.popObs, i)
+                del model[i]
+            elif kd == "insert_chrono":
+                k, ms, o = new_obs()
+                r = M.call(tr.insertObs, o)
+                if not M.is_raised(r):
+                    got = [(int(x.features[0]) if x.features else -1) for x in tr.getObsList()] if n else None
+                    ms_now = [gen.obstime_to_ms(x.timestamp) for x in tr.getObsList()]
+                    ctx.monitor("model.ids")
+                    if len(ms_now) != len(model) + 1 or any(ms_now[i] > ms_now[i + 1] for i in range(len(ms_now) - 1)):
+                        J.fail("chronological insertion into a sorted track left it unsorted (or changed its size)",
+                               args={"steps": steps, "instant": ms}, got_times=ms_now)
+                        break
+                    pos = [i for i, x in enumerate(tr.getObsList()) if x is o]
+                    if len(pos) != 1:
+                        J.fail("chronological insertion did not add exactly the new observation", args={"steps": steps})
+                        break
+                    model.insert(pos[0], (k, ms))
+            elif kd == "sort":
+                r = M.call(tr.sort)
+                if not M.is_raised(r):
+                    ms_now = [gen.obstime_to_ms(x.timestamp) for x in tr.getObsList()]
+                    ctx.monitor("model.ids")
+                    if any(ms_now[i] > ms_now[i + 1] for i in range(len(ms_now) - 1)):
+                        J.fail("after sort() the track is not in non-decreasing time order", args={"steps": steps},
+                               got_times=ms_now)
+                        break
+                    if sorted(ms_now) != sorted(m for _, m in model):
+                        J.fail("sort() lost or duplicated observations", args={"steps": steps})
+                        break
+                    if n:
+                        ids = [int(x.features[0]) for x in tr.getObsList()]
+                        if sorted(ids) != sorted(k for k, _ in model) or any(tid[i] != m for i, m in zip(ids, ms_now)):
+                            J.fail("sort() changed which observation carries which timestamp", args={"steps": steps})
+                            break
+                        model = [(i, tid[i]) for i in ids]
+                    else:
+                        model = sorted(model, key=lambda km: km[1])
+            if M.is_raised(r):
+                J.fail("operation raised during a call history", args={"steps": steps}, raised=r)
+                break
+            # the track must hold exactly the model's observations in the model's order
+            ms_now = [gen.obstime_to_ms(x.timestamp) for x in tr.getObsList()]
+            if ms_now != [m for _, m in model]:
+                J.fail("track content differs from the list model after a call history", args={"steps": steps},
+                       got_times=ms_now, expected_times=[m for _, m in model])
+                break
+            J.outcomes.add(tuple(ms_now))
+        sig = (op, rank, tuple(steps))
     else:
         raise M.HarnessError("unknown op " + op)
 
